@@ -3,6 +3,7 @@ package excellent
 import (
 	"strings"
 
+	"github.com/nyaruka/goflow/excellent/types"
 	"github.com/nyaruka/goflow/zzverif"
 )
 
@@ -175,3 +176,33 @@ func VerifGenExpression(budget int) string {
 
 // VerifNormDump exposes the normalised structural dump.
 func VerifNormDump(e Expression) string { return verifNormDump(e) }
+
+// VerifC11_LiteralRoundTrip: for every text value s (≤ 3 bytes ASCII incl.
+// control characters quick / ≤ 4 arbitrary bytes thorough) the text literal
+// node prints (Expression.String, the printer refactoring and migrations
+// use) as exactly one TEXT token which the visitor reads back as s, and
+// printing the re-read node gives the same text again.
+// cover: plain, has-quote, has-backslash, has-control
+func VerifC11_LiteralRoundTrip() {
+	n := 3
+	if zzverif.Thorough() {
+		n = 4
+	}
+	s := verifLiteralContent("s", n, !zzverif.Thorough())
+	switch {
+	case strings.IndexByte(s, '"') >= 0:
+		zzverif.Cover("has-quote")
+	case strings.IndexByte(s, '\\') >= 0:
+		zzverif.Cover("has-backslash")
+	case strings.IndexByte(s, '\n') >= 0 || strings.IndexByte(s, '\t') >= 0 || strings.IndexByte(s, 0x1b) >= 0:
+		zzverif.Cover("has-control")
+	default:
+		zzverif.Cover("plain")
+	}
+	printed := (&TextLiteral{Value: types.NewXText(s)}).String()
+	zzverif.Assert(verifLexTEXT(printed) == len(printed), "printed text literal is not exactly one TEXT token")
+	v := &visitor{}
+	reread := v.VisitTextLiteral(verifTextLiteral(printed)).(*TextLiteral)
+	zzverif.Assert(reread.Value.Native() == s, "printed text literal does not parse back to the same value")
+	zzverif.Assert(reread.String() == printed, "printing a re-parsed text literal gives a different text")
+}
